@@ -97,7 +97,8 @@ def gen_plan(seed, tier):
     if k == "frame":
       s = r.randrange(nhosts)
       kind = r.wpick([(10, "unicast"), (2, "bcast"), (1, "mcast"),
-                      (1, "lldp"), (1, "stp"), (1, "self"), (1, "unknown")])
+                      (1, "lldp"), (1, "stp"), (1, "self"), (1, "unknown"),
+                      (0.5, "groupsrc")])
       d = r.randrange(nhosts)
       steps.append({"op": "frame", "src": s, "dst": d, "kind": kind,
                     "l3": r.pick(["udp", "udp", "other", "arp"]),
@@ -382,7 +383,13 @@ def _drive(sim, plan, known, hit):
         dst = macs[s]
       elif kind == "unknown":
         dst = unknown_mac
-      raw = _frame(macs[s], dst, tag[0], st["l3"], st["flow"], et)
+      srcmac = macs[s]
+      if kind == "groupsrc":
+        # not something a station may send, but something a wire may carry:
+        # the group address the mcast frames go to, as a *source*
+        srcmac = b"\x01\x00\x5e\x00\x00\x05"
+        sim.probes["group_address_as_source"] += 1
+      raw = _frame(srcmac, dst, tag[0], st["l3"], st["flow"], et)
       sw, port = hostpos[s]
       sim.ev("frame", tag[0], s, kind)
       net.host_send(sw, port, raw)
